@@ -29,6 +29,8 @@ type c09Case struct {
 	FinishMid bool   `json:"finish_mid"` // a victim's handler returns between the offending HEADERS and its CONTINUATION
 	Order     []int  `json:"order"`      // interleaving of tracks 0 (V1) and 1 (X)
 	Finish    []int  `json:"finish"`
+	// Burst: the interleaved frames of V1 and the offending stream arrive in one segment
+	Burst bool `json:"burst,omitempty"`
 }
 
 var c09Offences = []string{
@@ -255,6 +257,9 @@ func c09Exec(cs c09Case) (*fw.Violation, *harness.Server, int) {
 	if cs.FinishMid {
 		shape += "+handler-returns-mid-block"
 	}
+	if cs.Burst {
+		shape += "+one-segment"
+	}
 	if cs.Offence == "refused" || cs.Offence == "refused-after-malformed-with-size-update" {
 		// two extra gated streams take the remaining slots (V1 holds the third)
 		for i := 0; i < 2; i++ {
@@ -276,13 +281,18 @@ func c09Exec(cs c09Case) (*fw.Violation, *harness.Server, int) {
 		}
 	}
 	nOrder := 0
+	var burst []peer.Frame
 	for _, t := range order {
 		if pos[t] >= len(tracks[t]) {
 			continue
 		}
 		nOrder++
 		for {
-			h.SendFrames(tracks[t][pos[t]].f()...)
+			if cs.Burst {
+				burst = append(burst, tracks[t][pos[t]].f()...)
+			} else {
+				h.SendFrames(tracks[t][pos[t]].f()...)
+			}
 			pos[t]++
 			if pos[t] >= len(tracks[t]) || !tracks[t][pos[t]].cont {
 				break
@@ -296,6 +306,9 @@ func c09Exec(cs c09Case) (*fw.Violation, *harness.Server, int) {
 				}
 			}
 		}
+	}
+	if cs.Burst {
+		h.SendFrames(burst...)
 	}
 	if after != nil {
 		after()
@@ -443,31 +456,37 @@ func runC09(c *fw.Ctx) {
 						fins = permutations(4)
 					}
 				}
+				pure := !strings.HasPrefix(off, "peer-rst") && off != "handler-panic"
 				for _, fin := range fins {
-					if item++; !c.Mine(item) {
-						continue
+					for _, burst := range []bool{false, true} {
+						if burst && !pure {
+							continue // the offending track of these reads the server's state between frames
+						}
+						if item++; !c.Mine(item) {
+							continue
+						}
+						cs := c09Case{Offence: off, Split: split, Order: ord, Finish: fin, Burst: burst}
+						if split && !burst && (item%2 == 0) {
+							cs.FinishMid = true
+						}
+						v, h, _ := c09Exec(cs)
+						js, _ := json.Marshal(cs)
+						c.Eval(nt(true, js))
+						c.AddTransitions(int64(h.Events))
+						c.AddTraces(1)
+						c.State(fw.Hash(h.Digest()))
+						if v != nil {
+							c.Violate(*v)
+							c.Outcome(v.Rule)
+						} else {
+							c.Outcome("victims-intact")
+						}
+						if sampled < 3 && off == "refused" {
+							sampled++
+							c.Sample(map[string]any{"case": cs, "events": h.EventLog})
+						}
+						h.Close()
 					}
-					cs := c09Case{Offence: off, Split: split, Order: ord, Finish: fin}
-					if split && (item%2 == 0) {
-						cs.FinishMid = true
-					}
-					v, h, _ := c09Exec(cs)
-					js, _ := json.Marshal(cs)
-					c.Eval(nt(true, js))
-					c.AddTransitions(int64(h.Events))
-					c.AddTraces(1)
-					c.State(fw.Hash(h.Digest()))
-					if v != nil {
-						c.Violate(*v)
-						c.Outcome(v.Rule)
-					} else {
-						c.Outcome("victims-intact")
-					}
-					if sampled < 3 && off == "refused" {
-						sampled++
-						c.Sample(map[string]any{"case": cs, "events": h.EventLog})
-					}
-					h.Close()
 				}
 				return !c.Expired("C09")
 			})
